@@ -117,6 +117,17 @@ impl Gen {
     }
     /// an expression that confines the timestamp to a finite window (by construction)
     pub fn window(&mut self, depth: u32) -> P {
+        // one window in eight repeats a sub-expression verbatim in two places (what a query builder that ORs
+        // per-series conditions produces; the engine's optimizer factors such repeats out of the filter)
+        if depth == 0 && sim::w(8) == 7 {
+            self.features.push("repeated-subexpression");
+            let w = self.window(1);
+            return match sim::w(3) {
+                0 => P::Or(Box::new(P::And(Box::new(w.clone()), Box::new(self.extra(2)))), Box::new(P::And(Box::new(w), Box::new(self.extra(2))))),
+                1 => P::Or(Box::new(P::And(Box::new(w.clone()), Box::new(self.extra(2)))), Box::new(P::Or(Box::new(w), Box::new(self.window(2))))),
+                _ => P::And(Box::new(P::Or(Box::new(w.clone()), Box::new(self.window(2)))), Box::new(P::Or(Box::new(w), Box::new(self.window(2))))),
+            };
+        }
         match sim::w(if depth > 1 { 4 } else { 8 }) {
             0 | 1 => {
                 let (mut a, mut b) = (self.cmp(true), self.cmp(false));
